@@ -30,6 +30,12 @@ def run(ctx):
         r2(ctx, facts, cfg)
         r3(ctx, facts, cfg)
         r4(ctx, facts, cfg)
+    # state that is reused from one statement to the next must not carry a failed (or any earlier) statement into the next one:
+    # the shared argument store (= C04.R6) and the JSON sink's message buffer (= C19.R3)
+    from rules import c04, c19
+    from rules.c09 import Renamed
+    c04.string_flag(Renamed(ctx, "C04.R6", "C10.R6"), ctx.facts("effects.cpp", "A", ()), ctx.facts("core.cpp", "A"))
+    c19.r3(Renamed(ctx, "C19.R3", "C10.R7"), ctx.facts("core.cpp", "A"))
 
 
 def window_fns(facts, cfg):
